@@ -21,6 +21,8 @@ type TrieCase struct {
 	Opt4 [4]int `json:"opt"`
 	// NoOpt: call NewSlimTrie without an Opt argument at all (Opt4 must be all 2)
 	NoOpt bool `json:"noopt"`
+	// legacyLayout: (concurrency family) the instance is loaded from a stream of this layout
+	legacyLayout string
 }
 
 type teVal struct {
